@@ -6,6 +6,10 @@ package main
 var properties = map[string]*property{}
 
 func init() {
+	properties["C01"] = &property{
+		ID: "C01", Level: "model_checking",
+		Harnesses: visitHarnesses(map[string]int{"K": 3, "B": 2, "strlen": 8, "paths": 4000}, map[string]int{"K": 4, "B": 2, "strlen": 8, "paths": 60000}),
+	}
 	properties["C06"] = &property{
 		ID: "C06", Level: "model_checking",
 		Harnesses: []harness{
@@ -70,4 +74,17 @@ func init() {
 			"strings are sequences of bytes 0..255",
 		},
 	}
+}
+
+// visitHarnesses: one harness per hand-written checker found in /repo's current tree.
+func visitHarnesses(quick, thorough map[string]int) []harness {
+	names, err := handWrittenCheckers()
+	if err != nil {
+		return nil
+	}
+	var hs []harness
+	for _, n := range names {
+		hs = append(hs, harness{Name: "gsxVisit_" + n, Pkg: "checkers", Quick: quick, Thorough: thorough, NoValidate: true, ReplayFn: replayVisit(n)})
+	}
+	return hs
 }
